@@ -35,10 +35,13 @@ type Keeper struct {
 	mongoClient *mongo.Client
 	mongoDb     *mongo.Database
 
-	wg            sync.WaitGroup
-	firstInitWg   sync.WaitGroup
-	initCompleted atomic.Value
-	closeCh       chan struct{}
+	wg          sync.WaitGroup
+	firstInitWg sync.WaitGroup
+	// each of the two loops reports to firstInitWg exactly once
+	firstElectOnce     sync.Once
+	firstHeartBeatOnce sync.Once
+	initCompleted      atomic.Value
+	closeCh            chan struct{}
 }
 
 // KeeperOption
@@ -329,7 +332,7 @@ func (k *Keeper) elect() {
 	}
 
 	if !k.initCompleted.Load().(bool) {
-		k.firstInitWg.Done()
+		k.firstElectOnce.Do(k.firstInitWg.Done)
 	}
 }
 
@@ -430,7 +433,7 @@ func (k *Keeper) goHeartBeat() {
 			}
 		}
 		if !k.initCompleted.Load().(bool) {
-			k.firstInitWg.Done()
+			k.firstHeartBeatOnce.Do(k.firstInitWg.Done)
 		}
 	}
 	k.wg.Done()
